@@ -766,7 +766,7 @@ def _r8(ctx, pkg):
 
 MUTANTS = [
     {"name": "render-forgets-photon-yields", "file": RENDER, "old": "        update_photon_yield(yields)\n", "new": "", "rules": ["R12"]},
-    {"name": "render-swaps-heating-cooling", "file": RENDER, "old": "            heating=heating,\n            cooling=cooling,", "new": "            heating=cooling,\n            cooling=heating,", "rules": ["R12"]},
+    {"name": "render-swaps-heating-cooling", "file": RENDER, "old": "            heating=heating,\n            cooling=cooling,", "new": "            heating=cooling,\n            cooling=heating,", "rules": ["R8", "R12"]},
     {"name": "render-reindexes-half-indexed", "file": RENDER, "old": '        dupes, dupidx, first = net.find_duplicate_reaction(mode="short")', "new": '        if any(r.idxfromfile == -1 for r in net.reaction_list):\n            net.reindex()\n        dupes, dupidx, first = net.find_duplicate_reaction(mode="short")', "rules": ["R10"]},
     {"name": "formats-deduplicated", "file": INIT, "old": '        formats = [f.strip() for f in formats.split(",") if f]', "new": '        formats = list(dict.fromkeys(f.strip() for f in formats.split(",") if f))', "rules": ["R11"]},
     {"name": "writer-drops-falsy-modifiers", "file": CONF, "old": "            str(key): value for key, value in self._ratemodifier.items()\n", "new": "            str(key): value for key, value in self._ratemodifier.items() if value\n", "rules": ["R9"]},
